@@ -74,12 +74,13 @@ class Policy:
     ) -> Any:
         ctx = ExecutionContext.create(self.circuit_breaker, on_metric, on_log, operation)
 
-        # Pre-flight abort check (no retry configured)
-        if self.retry is None and check_abort_no_retry(ctx, abort_if):
-            raise AbortRetryError()
-
         # Circuit breaker check
         check_breaker(ctx)
+
+        # Pre-flight abort check (no retry configured). Runs after admission so the
+        # cancel it records releases this call's own slot, never another call's probe.
+        if self.retry is None and check_abort_no_retry(ctx, abort_if):
+            raise AbortRetryError()
 
         try:
             if self.retry is None:
@@ -212,16 +213,16 @@ class Policy:
     ) -> RetryOutcome[Any]:
         ctx = ExecutionContext.create(self.circuit_breaker, on_metric, on_log, operation)
 
-        # Pre-flight abort check (no retry configured)
-        if self.retry is None and check_abort_no_retry(ctx, abort_if):
-            return build_aborted_outcome(ctx)
-
         # Circuit breaker check
         if ctx.breaker is not None:
             decision = ctx.breaker.allow()
             ctx.emit_breaker_event(decision.event, decision.state)
             if not decision.allowed:
                 return build_circuit_open_outcome(ctx, decision.state.value)
+
+        # Pre-flight abort check (no retry configured), after admission (see call()).
+        if self.retry is None and check_abort_no_retry(ctx, abort_if):
+            return build_aborted_outcome(ctx)
 
         try:
             # Delegate to retry if configured
